@@ -50,6 +50,7 @@
 -/
 import Nexus.L2.Proofs.RealmPublish
 import Nexus.L2.Proofs.DealerRealmRpc
+import Nexus.L2.Proofs.RealmKeys
 
 namespace Nexus.C08
 open Nexus.L2 Nexus.L2.Realm Gen.N
@@ -94,6 +95,33 @@ theorem C08_sub_bracket {r : Realm} (hb : BrokerInv r.broker) (k : SessKey) (i :
   · intro s c req hs hk hc hm
     subst hs
     exact (handleUnsubscribe_reply hb s c req i hk hc).1 hm
+
+/-- `C08_realm_event_order` and the reply clauses (3), (4) of `C08_sub_bracket` in every REACHABLE realm
+    (any history of inputs): the hypotheses `BrokerInv r.broker` and `k ≠ metaKey` are discharged — the
+    broker invariant holds in every reachable realm, and no client is stored under the meta session's key
+    (`Realm.Reachable.client?_ne_meta`), so "k is attached with record c" is all that is asked. -/
+theorem C08_realm_event_order_reachable {cfg : Config} {r : Realm} (h : Realm.Reachable cfg r) (s : Session)
+    (ps : List PubReq) (k : SessKey) (c : Session) (hc : r.client? k = some c) (i : Nat) :
+    (∃ added, (publishSeq r s ps).queueOf k = r.queueOf k ++ added ∧
+        (added.filterMap (evPubOf i)).Sublist (publishedIds r s ps)) ∧
+    (publishedIds r s ps).Pairwise (· < ·) ∧
+    (∀ n ∈ publishedIds r s ps, pubBase + r.pubCount ≤ n) :=
+  C08_realm_event_order h.inv.1.binv s ps k c (h.client?_ne_meta hc) hc i
+
+theorem C08_sub_bracket_reachable {cfg : Config} {r : Realm} (h : Realm.Reachable cfg r) (k : SessKey) (i : Nat) :
+    (∀ m, ¬ r.broker.isMember k i → eventsOf i ((handleB r m).queueOf k) = eventsOf i (r.queueOf k)) ∧
+    (∀ l, (∀ pre m post, l = pre ++ m :: post → ¬ (runB r pre).broker.isMember k i) →
+      eventsOf i ((runB r l).queueOf k) = eventsOf i (r.queueOf k)) ∧
+    (∀ (s c : Session) req opts topic, s.key = k → r.client? k = some c →
+      validUri r.broker.strict (opts.optString OptMatch) topic = true →
+      ∃ id, (handleSubscribe r s req opts topic).queueOf k = accept c.cap (r.queueOf k) [.subscribed req id] ∧
+        (handleSubscribe r s req opts topic).broker.isMember k id) ∧
+    (∀ (s c : Session) req, s.key = k → r.client? k = some c → r.broker.isMember k i →
+      (handleUnsubscribe r s req i).queueOf k = accept c.cap (r.queueOf k) [.unsubscribed req] ∧
+      ¬ (handleUnsubscribe r s req i).broker.isMember k i) := by
+  obtain ⟨b1, b2, b3, b4⟩ := C08_sub_bracket h.inv.1.binv k i
+  exact ⟨b1, b2, fun s c req opts topic hs hc hv => b3 s c req opts topic hs (h.client?_ne_meta hc) hc hv,
+    fun s c req hs hc hm => b4 s c req hs (h.client?_ne_meta hc) hc hm⟩
 
 /-- NOT REORDERED.  Session `k` (attached, `buffered`, not ending) sends `m1`, then `m2`, while its handler is in
     the yield retry loop; then the loop ends (the turn `x` of callee `k` answers `again = false`).  The task
